@@ -929,28 +929,35 @@ Definition dir_schema_fn (o : oracle) (sch : schemaspec) (src : fs) (rel : fpath
       do spd <- dir_read_sp o src p;
       consistency sp spd
   | SchStr text =>
-      (* root = the origin as the caller spelled it; os.walk yields join(root, ...) *)
-      let root := if is_empty (o_origin o) then ROOT_STR else o_origin o in
-      (* 54d0555: only an ABSOLUTE schema that starts with the absolute origin is kept as it is; a
-         relative schema is always joined to the origin (os.path.abspath(root) = ROOT_STR for every
-         spelling of the origin, which all denote the same directory) *)
-      let text' := if starts_slash text && startswith text ROOT_STR then text else normpath (pjoin2 root text) in
+      (* (repair of round 4) the schema is matched against the path RELATIVE to the origin, so neither the
+         spelling nor the name of the origin takes part ([o_origin] is no longer used); an ABSOLUTE schema
+         that starts with the absolute origin (ROOT_STR for every spelling) is first made relative to it *)
+      let root_s := ROOT_STR ++ slash in
+      do text' <- (if starts_slash text && startswith text ROOT_STR then
+                     let n := normpath text in
+                     if str_eqb n ROOT_STR then ROk dot
+                     else if startswith n root_s then ROk (skipn (length root_s) n)
+                     else ROod                       (* relpath starting with '..': never generated *)
+                   else ROk (normpath text));
       do fields <- schema_compile text';
-      do sp <- parse_path fields (normpath (pjoin root rel));
+      do sp <- parse_path fields (rel_str rel);
       do spd <- dir_read_sp o src p;
       consistency sp spd
   end.
 
-Record istate := { is_dst : fs; is_seen : list str }.
+(* what the crawl has identified so far: (path relative to the origin, state point) in visiting order, and
+   the ids already taken *)
+Record istate := { is_items : list (fpath * json); is_seen : list str }.
 
-(* one yield of _analyze_directory_for_import followed by its copy executor *)
-Definition dir_visit (o : oracle) (src : fs) (rel : fpath) (sp : json) (st : istate) : res (istate * option exn) :=
+(* one directory identified by _crawl_directory_data_space inside _analyze_directory_for_import *)
+Definition dir_visit (o : oracle) (rel : fpath) (sp : json) (st : istate) : res istate :=
   let id := job_id_of o sp in
   if str_mem id (is_seen st) then RExn ERuntimeError           (* StatepointParsingError: not unique *)
-  else do de <- copy_to_job_workspace o (fs_subtree (TARGET ++ rel) src) sp id (is_dst st);
-       ROk ({| is_dst := fst de; is_seen := id :: is_seen st |}, snd de).
+  else ROk {| is_items := is_items st ++ [(rel, sp)]; is_seen := id :: is_seen st |}.
 
-(* os.walk(root) top-down with 'del dirs[:]' on identified directories *)
+(* os.walk(root) top-down with 'del dirs[:]' on identified directories.  (repair of round 4) like the zip
+   and tar analysers, the directory analyser now validates EVERY directory - schema function, consistency
+   with the state point file, uniqueness - before anything is copied: the crawl only collects *)
 Fixpoint dir_crawl (fuel : nat) (o : oracle) (sch : schemaspec) (src : fs) (rel : fpath) (st : partial istate)
   : partial istate :=
   match fuel with
@@ -964,8 +971,8 @@ Fixpoint dir_crawl (fuel : nat) (o : oracle) (sch : schemaspec) (src : fs) (rel 
           | RExn e => stop_exn e
           | ROod => stop_ood
           | ROk (Some sp) =>
-              match dir_visit o src rel sp (p_val st) with
-              | ROk (s, e) => {| p_exn := e; p_ood := false; p_val := s |}
+              match dir_visit o rel sp (p_val st) with
+              | ROk s => {| p_exn := None; p_ood := false; p_val := s |}
               | RExn e => stop_exn e
               | ROod => stop_ood
               end
@@ -980,6 +987,10 @@ Fixpoint dir_crawl (fuel : nat) (o : oracle) (sch : schemaspec) (src : fs) (rel 
       end
   end.
 
+(* the copy executor of one identified directory: what was copied before an exception stays *)
+Definition dir_copy (o : oracle) (src : fs) (d : fs) (it : fpath * json) : res (fs * option exn) :=
+  copy_to_job_workspace o (fs_subtree (TARGET ++ fst it) src) (snd it) (job_id_of o (snd it)) d.
+
 Record import_out := { io_exn : option exn; io_ood : bool; io_dst : fs }.
 
 Definition import_dir (o : oracle) (sch : schemaspec) (src : fs) (dst0 : fs) : import_out :=
@@ -987,8 +998,13 @@ Definition import_dir (o : oracle) (sch : schemaspec) (src : fs) (dst0 : fs) : i
     {| io_exn := Some EValueError; io_ood := false; io_dst := dst0 |}
   else
     let r := dir_crawl (Datatypes.S (length src)) o sch src []
-                       {| p_exn := None; p_ood := false; p_val := {| is_dst := dst0; is_seen := [] |} |} in
-    {| io_exn := p_exn r; io_ood := p_ood r; io_dst := is_dst (p_val r) |}.
+                       {| p_exn := None; p_ood := false; p_val := {| is_items := []; is_seen := [] |} |} in
+    match p_exn r, p_ood r with
+    | None, false =>
+        let c := fold_partial2 (dir_copy o src) (is_items (p_val r)) dst0 in
+        {| io_exn := p_exn c; io_ood := p_ood c; io_dst := p_val c |}
+    | e, ood => {| io_exn := e; io_ood := ood; io_dst := dst0 |}       (* raised before any copy *)
+    end.
 
 (* ---- zip origin *)
 Fixpoint zip_read (ms : list (str * str)) (name : str) : option str :=      (* the LAST entry wins *)
